@@ -13,5 +13,6 @@ CONSTANTS
   Chars = {}
   IntParts = {0}
   Sample = 1
+  HiStep = 1
 INVARIANTS InvScanPrint InvUnitsAsInTeX
 CHECK_DEADLOCK FALSE
